@@ -103,6 +103,8 @@ def run(work, props, tier, seed, timeout=3600):
         res['reason'] = 'bounded driver does not build against this tree: ' + log[-1500:]
         return res
     out = os.path.join(work, 'bounded_%s.json' % '_'.join(props))
+    if os.path.exists(out):
+        os.remove(out)
     cmd = [binp, '--props', ','.join(props), '--tier', tier, '--seed', str(seed), '--out', out]
     res['cmd'] = ' '.join(cmd)
     try:
@@ -114,6 +116,36 @@ def run(work, props, tier, seed, timeout=3600):
         with open(out) as f:
             data = json.load(f)
     except (OSError, ValueError) as e:
+        if p.returncode < 0 or p.returncode in (134, 139):
+            # the driver itself died (abort from a UB check, segfault): rerun with breadcrumbs to find the case
+            crumbs = os.path.join(work, 'crumbs')
+            shutil.rmtree(crumbs, ignore_errors=True)
+            os.makedirs(crumbs)
+            env = dict(os.environ)
+            env['VERIF_BREADCRUMB'] = crumbs
+            p2 = subprocess.run(cmd, stdout=subprocess.PIPE, stderr=subprocess.PIPE, universal_newlines=True, timeout=timeout, env=env)
+            cands = []
+            for fn in sorted(os.listdir(crumbs)):
+                try:
+                    with open(os.path.join(crumbs, fn)) as f:
+                        cands.append(json.load(f))
+                except (OSError, ValueError):
+                    pass
+            res['crash'] = {'returncode': p.returncode, 'stderr_tail': (p.stderr or '')[-1500:], 'candidates': len(cands)}
+            # confirm which candidate reproduces the crash on its own
+            for c in cands:
+                tmp = os.path.join(work, 'crash_candidate.json')
+                with open(tmp, 'w') as f:
+                    json.dump(c, f)
+                rc = subprocess.call([binp, '--replay', tmp], stdout=subprocess.DEVNULL, stderr=subprocess.DEVNULL)
+                if rc < 0 or rc in (134, 139):
+                    c['actual'] = 'process aborted with status %d; stderr: %s | %s' % (rc, (p.stderr or '')[-400:].replace('\n', ' '), c['actual'])
+                    res['failures'] = [c]
+                    res['status'] = 'fail'
+                    res['wall_s'] = time.time() - t0
+                    return res
+            res['reason'] = 'bounded driver died (status %s) and no single case reproduces it: %s' % (p.returncode, (p.stderr or '')[-500:])
+            return res
         res['reason'] = 'bounded driver produced no report (exit %s): %s %s' % (p.returncode, e, p.stderr[-500:])
         return res
     res.update(data)
